@@ -13,6 +13,7 @@ use std::rc::Rc;
 mod sel;
 mod enc;
 mod attrs;
+mod tb;
 
 // live heap bytes (C10 growth probe): a counting wrapper around the system allocator
 struct Counting;
@@ -484,6 +485,15 @@ fn main() {
         let r = attrs::run_attrs(max_len, max_cuts);
         println!("{{\"property\":{:?},\"cases\":{},\"alphabet\":\"attribute pieces a=1 A=2 b b=3 c='x y' a=\\\"4\\\"; ops set(a) set(B) set(d) remove(a) remove(B) remove(z)\",\"exhaustive_len\":{},\"seed_documents\":0,\"max_cuts\":{},\"attr_mode\":true,\"violations\":[{}]}}",
             prop, r.cases, max_len, max_cuts, r.violations.join(","));
+        std::process::exit(if r.violations.is_empty() { 0 } else { 1 });
+    }
+    if prop == "C03" {
+        let r = tb::run_c03();
+        let mut classes: std::collections::BTreeMap<String, Vec<String>> = Default::default();
+        for (k, v) in r.classified { let e = classes.entry(k).or_default(); if e.len() < 2 { e.push(v); } }
+        let cls: Vec<String> = classes.iter().map(|(k, v)| format!("\"known_class_{}\":[{}]", k, v.join(","))).collect();
+        println!("{{\"property\":\"C03\",\"cases\":{},\"alphabet\":\"{} conformance cases (foreign content, integration points, text-type switches)\",\"exhaustive_len\":0,\"seed_documents\":{},\"max_cuts\":1,\"tb_mode\":true,\"violations\":[{}]{}{}}}",
+            r.cases, tb::CASES.len(), tb::CASES.len(), r.violations.join(","), if cls.is_empty() { "" } else { "," }, cls.join(","));
         std::process::exit(if r.violations.is_empty() { 0 } else { 1 });
     }
     if prop == "C13" {
